@@ -138,6 +138,15 @@ check("C09", "exploration",
       "Defect catalogue and rewrite set are those of DESIGN.md; field rows after check rows and leading blanks in check rules are unjudged.",
       "boundary observation of Cid.read under rewrite-equivalence and single-defect injection at every row", "DESIGN.md 5/C09")
 
+check("C10", "fault_enumeration",
+      "Every cell of every row kind of four valid base CIDs and every cell of their data is replaced, one at a time, by each of "
+      "~110 hostile values; the CID is loaded, the data validated under it, and a tenth also run through applications.main; "
+      "containers are truncated / get one byte replaced at every offset (archives sampled in quick). An exception monitor at "
+      "the API boundary admits only InterfaceError / DataError and never exit code 4; the innermost cutplace frame of an "
+      "escaping traceback names the mechanism. Thorough adds all cell pairs over the 25 most productive values.",
+      "Fault enumeration over a finite hostile pool; anything outside the pool is not covered. OSError is environment (C18).",
+      "exception-type monitor at the API boundary under exhaustive single-cell fault injection", "DESIGN.md 5/C10")
+
 NOT_YET = "check not built yet in this session; see DESIGN.md section 5 for the planned monitor"
 
 def main():
